@@ -56,7 +56,7 @@ func runC05(c *fw.Ctx) {
 			c.Violate("panic@"+nd.PanicFn, "honest party %q panicked while processing traffic from deviating party %q\n  alteration: %s in %s (%s)\n  %s", id, b.Cheater, b.Applied, b.AppliedAt, b.Sc.Name, nd.Panic)
 		}
 		if nd.Hang {
-			c.Violate("hang/"+b.where(), "honest party %q: Accept did not return within the watchdog bound\n  alteration: %s in %s", id, b.Applied, b.AppliedAt)
+			c.Violate("hang/"+b.where(), "honest party %q: Accept did not return within the watchdog bound\n  alteration: %s in %s\n%s", id, b.Applied, b.AppliedAt, nd.HangStack)
 		}
 	}
 	b.CheckClean()
